@@ -1,7 +1,7 @@
 BOUNDS = ('formats BMP (rgb8, rgba8, bgr8), binary PNM (gray8, rgb8, bgr8), TARGA (rgb8, rgba8, bgr8, bgra8); widths 1..5 (every BMP row-padding residue), heights 1..2 concrete per query; '
-          'view organisations interleaved, planar, sub-view, x-stepped, y-flipped; FILE* and file name; every pixel symbolic, the compared pixel position symbolic')
-OUTSIDE = ('PNG, TIFF, JPEG (libpng/libtiff/libjpeg: not encodable); std::ostream/istream devices (not modelled); bit-aligned PNM (gray1) views; w > 5 (8 for thorough), h > 2')
-ASSUMPTIONS = ['the FILE* model (rt/rt_file.c): what fwrite stores is what fread returns', 'read_image of the same pixel type is the inverse under test (its own safety is C11)']
+          'view organisations interleaved, planar, sub-view, x-stepped, y-flipped; FILE*, file name and std::ostream (read back through std::istream; stream model rt/rt_ios.c); every pixel symbolic, the compared pixel position symbolic')
+OUTSIDE = ('PNG, TIFF, JPEG (libpng/libtiff/libjpeg: not encodable); bit-aligned PNM (gray1) views; w > 5 (8 for thorough), h > 2')
+ASSUMPTIONS = ['the FILE* model (rt/rt_file.c): what fwrite stores is what fread returns', 'the stream model (rt/rt_ios.c): what ostream::write / operator<< store is what istream::readsome/get return', 'read_image of the same pixel type is the inverse under test (its own safety is C11)']
 def queries(tier, seed):
     qs = []
     fmts = [('bmp', 1, ['gil::rgb8_pixel_t', 'gil::rgba8_pixel_t', 'gil::bgr8_pixel_t']), ('pnm', 2, ['gil::gray8_pixel_t', 'gil::rgb8_pixel_t', 'gil::bgr8_pixel_t']), ('targa', 3, ['gil::rgb8_pixel_t', 'gil::rgba8_pixel_t', 'gil::bgr8_pixel_t', 'gil::bgra8_pixel_t'])]
@@ -10,13 +10,14 @@ def queries(tier, seed):
         for pix in pixs:
             for org, on in orgs.items():
                 if org == 2 and 'gray' in pix: continue
-                for dev in (1, 2):
+                for dev in (1, 2, 3):
                     for w in range(1, 9):
                         for h in (1, 2):
                             quick = w <= 5 and ((org == 1 and dev == 1 and (h == 2 or w in (1, 4))) or (w == 3 and h == 2 and (dev == 1 or org == 1)))
                             if 'bgr' in pix: quick = (w == 3 and h == 2 and dev == 1 and org in (1, 3))   # channel-permuting layouts
+                            if dev == 3: quick = (w == 3 and h == 2 and org in (1, 3) and 'bgr' not in pix) or (org == 1 and h == 1 and w in (1, 2, 4) and 'rgb8' in pix)
                             bytes_ = 160 + w * h * 4 + h * 4
-                            qs.append(Q('%s/%s/%s/%s/%dx%d' % (fn, pix.split('::')[1].replace('_pixel_t', ''), on, 'file' if dev == 1 else 'name', w, h), 'C12/rt.cpp', 'h_rt',
-                                        defs=dict(FORMAT=fi, PIX=pix, ORG=org, DEV=dev), params=[w, h], rt=['file', 'string'], unwind=max(16, 4 * w + 6), rt_unwind=bytes_, mem_unwind=400,
+                            qs.append(Q('%s/%s/%s/%s/%dx%d' % (fn, pix.split('::')[1].replace('_pixel_t', ''), on, {1: 'file', 2: 'name', 3: 'stream'}[dev], w, h), 'C12/rt.cpp', 'h_rt',
+                                        defs=dict(FORMAT=fi, PIX=pix, ORG=org, DEV=dev), params=[w, h], rt=['file', 'string'] + (['ios'] if dev == 3 else []), unwind=max(16, 4 * w + 6), rt_unwind=bytes_, mem_unwind=400,
                                         cdefs=dict(VP_FILE_MAX=bytes_), tier='quick' if quick else 'thorough', timeout=300))
     return qs
